@@ -71,6 +71,22 @@ def gen_history(rng, tier):
         specs[b] = {"kind": base["kind"], "data": s["data"][:12], "options": o, "opt_mode": "given"}
         for i in (a, b):
             specs[i]["share"] = {"group": 0, "how": how, "over": over}
+    if rng.random() < 0.45:
+        # "sibling" timelines: the same options and almost the same data — the times stretched by a few per cent about their centre — so that the
+        # two axes get the same nice domain from slightly different raw extents (possibly on either side of a tick-step threshold)
+        cand = [i for i, sp in enumerate(specs) if sp["kind"] == "datetime" and not sp.get("share") and len(sp["data"]) >= 2 and "domain" not in sp["options"]]
+        if cand:
+            a = rng.choice(cand)
+            b = rng.choice([i for i in range(k) if i != a])
+            base = specs[a]
+            ts = [d["time"] for d in base["data"]]
+            c = (min(ts) + max(ts)) / 2
+            f = rng.choice([0.9, 0.93, 0.96, 0.98, 1.02, 1.04, 1.08, 1.12])
+            sib = json.loads(json.dumps({kk: vv for kk, vv in base.items() if kk != "share"}))
+            for d in sib["data"]:
+                d["time"] = int(round(c + (d["time"] - c) * f))
+            if not specs[b].get("share"):
+                specs[b] = sib
     backends = [rng.choice(["svg", "tikz"]) for _ in specs]
     ops = []
     constructed = []
@@ -189,7 +205,7 @@ def body_c10(tier, seed, rep, only_prop=False, scale=1):
         _MODULE_SNAPSHOT["at-import"] = module_snapshot()
     import ref_export as RE
     rng = rng_for(seed, "c10")
-    n = common.count(tier, 200, 1500) * scale
+    n = common.count(tier, 400, 2500) * scale
     hist = [gen_history(rng, tier) for _ in range(n)]
     cache = {}
     jobs = sorted({json.dumps([s, b], sort_keys=True) for specs, bks, _ in hist for s, b in zip(specs, bks)})
@@ -283,7 +299,7 @@ def body_c18(tier, seed, rep, only_prop=False, scale=1):
         rep.count("zones", len(ZONES))
 
     def probe(zone):
-        env = dict(os.environ, TZ=zone, LABELLA_REPO=REPO)
+        env = dict(os.environ, TZ=zone, LABELLA_REPO=REPO, SOURCE_DATE_EPOCH="1600000000")      # a reproducible-build environment, the same in every zone
         p = subprocess.run([PY, os.path.join(VERIF, "harness", "tz_probe.py"), str(seed + (7919 if scale > 1 else 0)), tier], capture_output=True, text=True, timeout=1700, env=env)
         if p.returncode != 0:
             raise Infra("tz_probe failed under TZ=%s: %s" % (zone, p.stderr[-600:]))
